@@ -290,6 +290,72 @@ func runC16(p *core.Prog, r *core.Report) {
 	if nGate == 0 {
 		r.Fatalf("C16.R5: no counters.Delete / Reset call found in the write-cache")
 	}
+	// ---------------- R6 the batch flush removes exactly what it wrote
+	r6 := r.Rule("C16.R6", "flushBatch removes from the cache only addresses taken from the very collection it handed to PutBatch (an address of the batch whose read failed was not written; removing it destroys a copy that a concurrent re-put has just acknowledged)", 1)
+	if fb := p.Func(wcT + ".flushBatch"); fb == nil {
+		r.Fatalf("C16.R6: flushBatch not found")
+	} else {
+		var written ssa.Value
+		for _, s := range core.CallSites([]*ssa.Function{fb}, func(s core.Site) bool { return strings.HasSuffix(s.Name, ".PutBatch") }) {
+			if len(s.Call.Common().Args) > 0 {
+				written = s.Call.Common().Args[len(s.Call.Common().Args)-1]
+			}
+		}
+		dels := core.CallSites([]*ssa.Function{fb}, func(s core.Site) bool { return s.Name == wcT+".delete" })
+		if written == nil || len(dels) == 0 {
+			r.Fatalf("C16.R6: PutBatch or cache.delete call not found in flushBatch")
+		}
+		for _, d := range dels {
+			args := d.Call.Common().Args
+			src := rangeSourceOf(args[len(args)-1])
+			r6.Check(src != nil && src == written, core.FuncName(fb)+"#delete!address-was-written", p.InstrPos(d.Call), "the removed address is a key of the map given to PutBatch", "flushBatch removes from the write-cache an address that does not come from the collection handed to PutBatch: an object that was not written to the main storage loses its cached (only) copy")
+		}
+	}
+}
+
+// rangeSourceOf: for a value that is the key/element variable of a `for ... range X` loop, X; else nil.
+func rangeSourceOf(v ssa.Value) ssa.Value {
+	for i := 0; i < 6 && v != nil; i++ {
+		switch x := v.(type) {
+		case *ssa.Extract:
+			if nx, ok := x.Tuple.(*ssa.Next); ok {
+				if rg, ok := nx.Iter.(*ssa.Range); ok {
+					return rg.X
+				}
+			}
+			return nil
+		case *ssa.UnOp:
+			if x.Op != token.MUL {
+				return nil
+			}
+			switch a := x.X.(type) {
+			case *ssa.IndexAddr:
+				return a.X
+			case *ssa.Alloc:
+				var st ssa.Value
+				n := 0
+				for _, ref := range *a.Referrers() {
+					if s, ok := ref.(*ssa.Store); ok && s.Addr == a {
+						st = s.Val
+						n++
+					}
+				}
+				if n != 1 {
+					return nil
+				}
+				v = st
+			default:
+				return nil
+			}
+		case *ssa.ChangeType:
+			v = x.X
+		case *ssa.Index:
+			return x.X
+		default:
+			return nil
+		}
+	}
+	return nil
 }
 
 func runC17(p *core.Prog, r *core.Report) {
